@@ -30,13 +30,11 @@ def strategy(draw):
     if mode == 'partial' and len(spec['lfs']) > 1:
         # some kinds share a set name across logical files, others are kept apart
         for i, lf in enumerate(spec['lfs']):
-            own = {}        # decided per (logical file, kind): objects of one type stay in one set (C07 finding)
             for op in lf['ops']:
                 if op['t'] in ('nfdata',):
                     continue
-                if op['t'] not in own:
-                    own[op['t']] = op['t'] in ('origin', 'channel', 'frame', 'no_format') or draw(st.booleans())
-                if own[op['t']]:
+                # decided per object: same-named objects of one type may sit in differently named sets
+                if op['t'] in ('origin', 'no_format') or draw(st.booleans()):
                     op['set'] = f"{op['t'].upper()}-LF{i}"
                 else:
                     op.pop('set', None)
@@ -89,17 +87,6 @@ class C18(Property):
         nfr = sum(1 for lf in spec['lfs'] for op in lf['ops'] if op['t'] == 'frame')
         labels = ['mode:' + mode, f"lfs:{len(spec['lfs'])}"] + (['shared-set-name'] if shared else [])
         nt = shared or (nfr >= 2 and len(rows) >= 2)
-        # same-named objects of one type in differently named sets of ONE logical file are the C07 finding (copy numbers
-        # per set); such a specification says nothing about isolation - excluded and counted
-        for lf in spec['lfs']:
-            seen = {}
-            for op in lf['ops']:
-                if op['t'] == 'nfdata':
-                    continue
-                key = (op['t'], op.get('name'))
-                if key in seen and seen[key] != op.get('set'):
-                    return Result([], labels + ['excluded-C07-same-name-in-two-sets'], False, 'excluded')
-                seen.setdefault(key, op.get('set'))
         r, dec, ferr = specrun.write_and_decode(spec, ctx)
         if r['outcome'] != 'written':
             return Result([], labels + ['raised'], nt and shared, outcome_label(r))
